@@ -124,6 +124,12 @@ def _session(rec):
                 skip = SKIP if st['x'][2] == 'skip' else ()
                 slots[d], _ = parse_obs(feed(POOL[sid - 1], form), skip)
                 hist[d] = (sid, form, [], skip)
+                # right after a parse the document must be what the reader machine computed for (source, option) - a
+                # reference that no earlier step of this session can have contaminated
+                want = rec['expect']['%d/%s' % (sid, st['x'][2])]
+                got = snapshot(slots[d])
+                if got != want:
+                    return {'step': n, 'why': 'parse-depends-on-history', 'slot': d, 'got': got['out'], 'want': want['out']}
             elif a == 'edit':
                 if not isinstance(slots[d], Failed):
                     do_edit(slots[d], st['x'][0])
@@ -197,9 +203,18 @@ def run(chk):
                 'mutable object. A case is a (source, form, chunking), a (seed, source) or an interleaving.')
     # (1) expected trees from the machine; lexer determinism on sizing commands
     sizing = ['\\' + p + d + 'x' for p in c12.PREFIX for d in c12.DELIMS]
-    res = S.explore(chk, 'pool', [], userskip=SKIP, invariants=['C17_LexDeterminism', 'C06_Diagnostic'], sources=POOL + sizing)
+    res = S.explore(chk, 'pool', [], userskip=SKIP, invariants=['C17_LexDeterminism', 'C06_Diagnostic'], sources=POOL + sizing, runs='')
     S.model_must_hold(chk, res)
     expect = {from_atoms(r['i']): r['A'] for r in res.records}
+    res0 = S.explore(chk, 'pool-noskip', [], userskip=(), invariants=['C06_Diagnostic'], sources=POOL, runs='')
+    expect0 = {from_atoms(r['i']): r['A'] for r in res0.records}
+
+    def as_snapshot(a):
+        return {'out': from_atoms(a['out']), 'flat': a['flat']} if a['o'] == 'ok' else {'out': '<' + a['o'] + '>', 'flat': []}
+    session_expect = {}
+    for k, src in enumerate(POOL, 1):
+        session_expect['%d/skip' % k] = as_snapshot(expect[src])
+        session_expect['%d/noskip' % k] = as_snapshot(expect0[src])
     lres = c19.lexer(chk, ['\\', 'l', 'e', 'f', 't', '.', '|', '(', 'b', 'i', 'g'], 0, sizing + ['\\left.|', '\\bigg\\langle', '\\Bigg\\rfloor x'])
     # (2) forms and chunkings
     n_forms = 0
@@ -269,6 +284,8 @@ def run(chk):
     if quick and len(recs) > 6000:
         rng.shuffle(recs)
         recs = recs[:6000]
+    for r in recs:
+        r['expect'] = session_expect
     bad = obs.pmap(_session, recs)
     for r, b in zip(recs, bad):
         chk.case(json.dumps(r['t']))
